@@ -138,6 +138,73 @@ func H_C12_first(order, _ int) {
 	vdigest(out)
 }
 
+// H_C12_nested(cont, _): two competing definitions inside ONE root container at
+// solver-chosen nesting depths (1 or 2), the use before or after it. Source order
+// decides, not nesting depth (a breadth-first or otherwise reordered extraction
+// would pick the shallower one). cont 0: block quotes, 1: list items, 2: a list
+// item inside a block quote followed by a definition at quote level.
+func H_C12_nested(cont, _ int) {
+	variants := []string{"foo bar", "FOO BAR", "Foo  Bar", "fOO\tbAR"}
+	v := func() string { return variants[vconcrete(nondetInt(0, len(variants)-1))] }
+	def1 := "[" + v() + "]: /first \"one\""
+	def2 := "[" + v() + "]: /second \"two\""
+	use := "[" + v() + "]"
+	d1 := vconcrete(nondetInt(1, 2))
+	d2 := vconcrete(nondetInt(1, 2))
+	useFirst := nondetBool()
+	rep := func(s string, n int) string {
+		out := ""
+		for i := 0; i < n; i++ {
+			out += s
+		}
+		return out
+	}
+	var doc []byte
+	if useFirst {
+		doc = append(doc, use+"\n\n"...)
+	}
+	switch cont {
+	case 0:
+		doc = append(doc, rep("> ", d1)+def1+"\n>\n"+rep("> ", d2)+def2+"\n\n"...)
+	case 1:
+		second := "  "
+		if d2 == 2 {
+			second += "- "
+		}
+		doc = append(doc, rep("- ", d1)+def1+"\n\n"+second+def2+"\n\n"...)
+	default:
+		first := "> "
+		if d1 == 2 {
+			first += "- "
+		}
+		second := "> "
+		if d2 == 2 {
+			second += "- "
+		}
+		doc = append(doc, first+def1+"\n>\n"+second+def2+"\n\n"...)
+	}
+	if !useFirst {
+		doc = append(doc, use+"\n"...)
+	}
+	blocks, refs := Parse(doc)
+	nb := 1
+	if cont == 1 && d1 == 1 && d2 == 1 {
+		nb = 1
+	}
+	check(len(blocks) == nb+1, "C12.nested.one-container")
+	out := renderWith(&HTMLRenderer{ReferenceMap: refs}, blocks)
+	want := "<a href=\"/first\" title=\"one\">"
+	found := false
+	for i := 0; i+len(want) <= len(out); i++ {
+		if string(out[i:i+len(want)]) == want {
+			found = true
+		}
+	}
+	check(found, "C12.first-wins.nested")
+	check(len(refs) == 1, "C12.first.single-key")
+	vdigest(out)
+}
+
 // ---------------------------------------------------------------- closure
 
 func c12KeyNormalized(k string) bool {
